@@ -101,19 +101,24 @@ class NPe(Stub):
 
     @staticmethod
     def argwhere(m):
+        # positions of the true cells and the boolean mask itself select the same cells of a 1-d array: both are the mask term
         if not isinstance(m, Term):
             raise Unsupported("np.argwhere of a non-symbolic mask")
-        return Tok("idx", m)
+        return m
 
     @staticmethod
     def where(m):
         if not isinstance(m, Term):
             raise Unsupported("np.where of a non-symbolic mask")
-        return (Tok("idx", m),)
+        return (m,)
 
     @staticmethod
     def flatnonzero(m):
-        return Tok("idx", m)
+        return m
+
+    @staticmethod
+    def nonzero(m):
+        return (m,)
 
 
 def _stand_ins(rec: Rec) -> Dict[str, Any]:
@@ -187,8 +192,8 @@ def judge(o: Dict[str, Any], model_key: str) -> List[Tuple[str, str]]:
         bad.append(("f_unc", f"the uncertainty must be the component's f_unc for every temperature; found {o['f_unc']}"))
     bp_h, bp_c, c0 = fm[0], fm[3], fm[6]
     lo = f"sub(MODEL, {c0})"
-    want_h = f"zeros_like(MODEL)[('idx(le(T, {bp_h}))', 'take({lo}, idx(le(T, {bp_h})))')]"
-    want_c = f"zeros_like(MODEL)[('idx(ge(T, {bp_c}))', 'take({lo}, idx(ge(T, {bp_c})))')]"
+    want_h = f"zeros_like(MODEL)[('le(T, {bp_h})', 'take({lo}, le(T, {bp_h}))')]"
+    want_c = f"zeros_like(MODEL)[('ge(T, {bp_c})', 'take({lo}, ge(T, {bp_c}))')]"
     if o["hdd_load"] != want_h:
         bad.append(("loads", f"heating load must be (model - intercept) where T <= hdd_bp and zero elsewhere, with hdd_bp and intercept the entries 0 and 6 of the vector handed to the kernel; found {o['hdd_load']} (expected {want_h})"))
     if o["cdd_load"] != want_c:
